@@ -1,6 +1,7 @@
 package harness
 
 import (
+	"os"
 	"fmt"
 	"sort"
 	"strings"
@@ -187,3 +188,7 @@ func protoOf(w *World, ci int) string {
 	}
 	return p
 }
+
+func raceMode() bool { return osGetenv("VERIF_RACE") != "" }
+
+func osGetenv(k string) string { return os.Getenv(k) }
